@@ -236,6 +236,9 @@ def _walks_parent_chain(loop) -> bool:
 
 
 def run_extra(ctx: Ctx):
+    # ---------------------------------------------------------------- R05.11 every booking is counted against every limit that covers it
+    from .c01 import book_effects_rule
+    book_effects_rule(ctx, "R05.11", ("own_limit", "parent_limit", "task_limit"))
     # ---------------------------------------------------------------- R05.10 every duration parser tells minutes from months
     from .common import duration_unit_rule
     duration_unit_rule(ctx, "R05.10")
